@@ -103,8 +103,11 @@ pub fn all_paths<'a>(y: &'a Y, out: &mut Vec<(Vec<Seg>, &'a Y)>, cur: &mut Vec<S
     }
 }
 
-fn small_opts() -> YOpts {
+fn small_opts(simple: bool) -> YOpts {
     let mut o = YOpts::full();
+    if simple {
+        o.strings = gy::YStrings::Simple;
+    }
     o.max_depth = 2;
     o.max_nodes = 6;
     o.max_docs = 1;
@@ -114,8 +117,8 @@ fn small_opts() -> YOpts {
 
 /// a literal operand: mostly hostile / ambiguous strings (what an emitter must quote),
 /// ints, null/bool, sometimes a small collection
-pub fn gen_lit(u: &mut Src) -> Y {
-    let o = small_opts();
+pub fn gen_lit(u: &mut Src, simple: bool) -> Y {
+    let o = small_opts(simple);
     match u.below(12) {
         0 => Y::Null,
         1 => Y::Bool(u.bool()),
@@ -131,8 +134,8 @@ pub fn gen_lit(u: &mut Src) -> Y {
 }
 
 /// a key that does not occur in `avoid`; never `<<` (merge keys are outside the statements)
-pub fn gen_new_key(u: &mut Src, avoid: &[&str]) -> String {
-    let o = small_opts();
+pub fn gen_new_key(u: &mut Src, avoid: &[&str], simple: bool) -> String {
+    let o = small_opts(simple);
     let mut k = gy::gen_key(u, &o);
     if k == "<<" {
         k = "<<<".into();
@@ -189,6 +192,7 @@ pub fn hints_of(r: &gy::RenderedYaml, doc: usize) -> DocHints {
 }
 
 struct WCtx<'a> {
+    simple: bool,
     doc: &'a Y,
     nodes: Vec<(Vec<Seg>, &'a Y)>,
     hints: &'a DocHints,
@@ -237,7 +241,7 @@ impl<'a> WCtx<'a> {
                 match y {
                     Y::Map(m) => {
                         let keys: Vec<&str> = m.iter().map(|e| e.0.as_str()).collect();
-                        p.push(Seg::Key(gen_new_key(u, &keys)));
+                        p.push(Seg::Key(gen_new_key(u, &keys, self.simple)));
                         return (p, "path:new-key", None);
                     }
                     Y::Seq(a) => {
@@ -253,7 +257,7 @@ impl<'a> WCtx<'a> {
                 let mut p = p.clone();
                 for _ in 0..u.range(1, 2) {
                     if u.ratio(3, 4) {
-                        p.push(Seg::Key(gen_new_key(u, &[])));
+                        p.push(Seg::Key(gen_new_key(u, &[], self.simple)));
                     } else {
                         p.push(Seg::Idx(u.below(3)));
                     }
@@ -277,15 +281,16 @@ impl<'a> WCtx<'a> {
             0 => (".".into(), "update:identity"),
             1 => ("tostring".into(), "update:tostring"),
             2 => ("[.]".into(), "update:wrap-array"),
-            3 => (format!("{{{}: .}}", jq_string(&gen_new_key(u, &[]))), "update:wrap-object"),
+            3 => (format!("{{{}: .}}", jq_string(&gen_new_key(u, &[], self.simple))), "update:wrap-object"),
             4 => ("[., .]".into(), "update:wrap-array"),
             _ => (". + 1".into(), "update:plus-one"),
         }
     }
 
-    fn one(&self, u: &mut Src, allow_read: bool) -> WriteProg {
+    fn one(&self, u: &mut Src, allow_read: bool, allow_write: bool) -> WriteProg {
         let mut w = WriteProg::default();
-        let kind = u.weighted(&[if allow_read { 2 } else { 0 }, if allow_read { 3 } else { 0 }, 8, 5, 3, 4, 2, 2, 2]);
+        let ww = |n: u32| if allow_write { n } else { 0 };
+        let kind = u.weighted(&[if allow_read { 2 } else { 0 }, if allow_read { 3 } else { 0 }, ww(8), ww(5), ww(3), ww(4), ww(2), ww(2), ww(2)]);
         match kind {
             0 => {
                 w.text = ".".into();
@@ -299,7 +304,7 @@ impl<'a> WCtx<'a> {
             }
             2 => {
                 let (p, tag, _) = self.pick_path(u, false);
-                w.text = format!("{} = {}", path_text(&p), lit_text(&gen_lit(u)));
+                w.text = format!("{} = {}", path_text(&p), lit_text(&gen_lit(u, self.simple)));
                 w.tags.push("assign");
                 w.tags.push(tag);
                 w.is_write = true;
@@ -318,17 +323,17 @@ impl<'a> WCtx<'a> {
                 // an operand of the kind found there (so that `+=` usually succeeds)
                 let lit = match at {
                     Some(Y::Int(_)) => Y::Int(u.range_i64(-5, 100)),
-                    Some(Y::Str(_)) => Y::Str(gy::gen_string(u, &small_opts())),
-                    Some(Y::Seq(_)) => Y::Seq((0..u.range(0, 2)).map(|_| gen_lit(u)).collect()),
+                    Some(Y::Str(_)) => Y::Str(gy::gen_string(u, &small_opts(self.simple))),
+                    Some(Y::Seq(_)) => Y::Seq((0..u.range(0, 2)).map(|_| gen_lit(u, self.simple)).collect()),
                     Some(Y::Map(m)) => {
                         let keys: Vec<&str> = m.iter().map(|e| e.0.as_str()).collect();
-                        let mut lm = vec![(gen_new_key(u, &keys), gen_lit(u))];
+                        let mut lm = vec![(gen_new_key(u, &keys, self.simple), gen_lit(u, self.simple))];
                         if let (true, Some(e)) = (u.bool(), m.first()) {
-                            lm.push((e.0.clone(), gen_lit(u)));
+                            lm.push((e.0.clone(), gen_lit(u, self.simple)));
                         }
                         Y::Map(lm)
                     }
-                    _ => gen_lit(u),
+                    _ => gen_lit(u, self.simple),
                 };
                 w.text = format!("{} += {}", path_text(&p), lit_text(&lit));
                 w.tags.push("add-assign");
@@ -352,10 +357,10 @@ impl<'a> WCtx<'a> {
                     (if u.ratio(2, 3) { vec![] } else { p.clone() }, if let Y::Map(m) = y { m.clone() } else { vec![] })
                 };
                 let keys: Vec<&str> = m.iter().map(|e| e.0.as_str()).collect();
-                let mut lm = vec![(gen_new_key(u, &keys), gen_lit(u))];
+                let mut lm = vec![(gen_new_key(u, &keys, self.simple), gen_lit(u, self.simple))];
                 if !m.is_empty() && u.bool() {
                     let e = u.pick(&m);
-                    lm.push((e.0.clone(), gen_lit(u)));
+                    lm.push((e.0.clone(), gen_lit(u, self.simple)));
                 }
                 if p.is_empty() {
                     w.text = format!(". * {}", lit_text(&Y::Map(lm)));
@@ -382,7 +387,7 @@ impl<'a> WCtx<'a> {
             }
             _ => {
                 let (p, tag, _) = self.pick_path(u, false);
-                w.text = format!("{} //= {}", path_text(&p), lit_text(&gen_lit(u)));
+                w.text = format!("{} //= {}", path_text(&p), lit_text(&gen_lit(u, self.simple)));
                 w.tags.push("alt-assign");
                 w.tags.push(tag);
                 w.is_write = true;
@@ -392,18 +397,28 @@ impl<'a> WCtx<'a> {
     }
 }
 
+#[derive(Clone, Copy, Debug, PartialEq)]
+pub enum ProgMode {
+    Any,
+    /// identity / navigation only (the streaming emitter's route)
+    ReadOnly,
+    /// a program that changes the document
+    WriteOnly,
+}
+
 /// A program of the write fragment for `doc` (the model of the *first* document of the
-/// stream; the same program then runs on every document).
-pub fn gen_write(u: &mut Src, doc: &Y, hints: &DocHints) -> WriteProg {
+/// stream; the same program then runs on every document). `simple`: literals and new keys
+/// come from the simple string palette.
+pub fn gen_write(u: &mut Src, doc: &Y, hints: &DocHints, mode: ProgMode, simple: bool) -> WriteProg {
     let mut nodes = vec![];
     all_paths(doc, &mut nodes, &mut vec![]);
-    let cx = WCtx { doc, nodes, hints };
-    let mut w = cx.one(u, true);
+    let cx = WCtx { simple, doc, nodes, hints };
+    let mut w = cx.one(u, mode != ProgMode::WriteOnly, mode != ProgMode::ReadOnly);
     // a pipeline of writes (each stage sees the previous stage's result; paths still come
     // from the original document, so later stages may miss — that is fine)
     let mut stages = 0;
     while w.is_write && stages < 2 && u.ratio(1, 4) {
-        let n = cx.one(u, false);
+        let n = cx.one(u, false, true);
         w.text = format!("{} | {}", w.text, n.text);
         w.tags.extend(n.tags);
         if stages == 0 {
